@@ -197,9 +197,11 @@ func serializeSignedMessage(e *Exchange, certSha256 []byte, validityUrl string, 
 }
 
 func (s *Signer) sign(e *Exchange) ([]byte, error) {
-	if s.Algorithm == nil {
+	// Do not cache the algorithm in s: a Signer may be shared between goroutines.
+	algorithm := s.Algorithm
+	if algorithm == nil {
 		var err error
-		s.Algorithm, err = signingalgorithm.SigningAlgorithmForPrivateKey(s.PrivKey, rand.Reader)
+		algorithm, err = signingalgorithm.SigningAlgorithmForPrivateKey(s.PrivKey, rand.Reader)
 		if err != nil {
 			return nil, err
 		}
@@ -210,7 +212,7 @@ func (s *Signer) sign(e *Exchange) ([]byte, error) {
 		return nil, err
 	}
 
-	return s.Algorithm.Sign(msg)
+	return algorithm.Sign(msg)
 }
 
 func (s *Signer) signatureHeaderValue(e *Exchange) (string, error) {
